@@ -544,13 +544,9 @@ def _format_index(index_statistics):
             nullable=properties["nullable"],
             unique=properties["unique"],
             coerce=properties["coerce"],
-            name=(
-                "None"
-                if properties["name"] is None
-                else f"\"{properties['name']}\""
-            ),
-            description=(None if description is None else f'"{description}"'),
-            title=(None if title is None else f'"{title}"'),
+            name=properties["name"].__repr__(),
+            description=description.__repr__(),
+            title=title.__repr__(),
         )
         index.append(index_code.strip())
 
@@ -588,8 +584,8 @@ def to_script(dataframe_schema, path_or_buf=None):
             coerce=properties["coerce"],
             required=properties["required"],
             regex=properties["regex"],
-            description=(None if description is None else f'"{description}"'),
-            title=(None if title is None else f'"{title}"'),
+            description=description.__repr__(),
+            title=title.__repr__(),
         )
         columns[colname] = column_code.strip()
 
@@ -599,7 +595,7 @@ def to_script(dataframe_schema, path_or_buf=None):
         else _format_index(statistics["index"])
     )
 
-    column_str = ", ".join(f"'{k}': {v}" for k, v in columns.items())
+    column_str = ", ".join(f"{k!r}: {v}" for k, v in columns.items())
 
     script = SCRIPT_TEMPLATE.format(
         columns=column_str,
